@@ -59,7 +59,7 @@ def reductions(sc):
     if ibm:
         c = _cp(sc)
         c["ibm"] = {}
-        for v in ("age", "weight"):
+        for v in ("age", "weight", "dose"):
             c["output"]["ivars"].pop(v, None)
         yield "ibm:none", c
         for key in ("kills", "kill_pids", "deact", "act"):
@@ -80,6 +80,11 @@ def reductions(sc):
             del c["ibm"]["weight"]
             c["output"]["ivars"].pop("weight", None)
             yield "ibm:no_weight", c
+        if ibm.get("dose"):
+            c = _cp(sc)
+            del c["ibm"]["dose"]
+            c["output"]["ivars"].pop("dose", None)
+            yield "ibm:no_dose", c
     # --- run length
     ns = sc["time"]["nsteps"]
     for m in sorted({ns // 2, ns - 1, ns - 2} - {ns}):
